@@ -1496,7 +1496,7 @@ class Loops:
             return []
         return self.elem_of(s, it.seq, it.pos + K, e)
 
-    def py_for(self, e, st, it, init, step, elem_ty=None):
+    def py_for(self, e, st, it, init, step, elem_ty=None, closures=()):
         """A traversal whose body is given by the analyser instead of by source code (fold, sum, try_fold ...):
         `step(state, acc, elem)` returns outcomes (state, "val", new acc) or (state, "out", final value).  It goes through
         the ordinary for-loop machinery (closed forms, prefix sums, quantified facts, early exits, tiling).
@@ -1526,7 +1526,9 @@ class Loops:
                     outs.append((s2, kind, v))
             return outs
 
-        body = {"k": "PyBody", "t": e.get("t"), "sp": e.get("sp"), "fn": fn,
+        # bodies of the closures the step calls: their assignments to captured variables are carried state of the loop
+        cbodies = [I.F.bodies[c.fn]["body"] for c in closures if isinstance(c, FnV) and c.fn in I.F.bodies]
+        body = {"k": "PyBody", "t": e.get("t"), "sp": e.get("sp"), "fn": fn, "closures": cbodies,
                 "scan": {"k": "Assign", "lhs": {"k": "Var", "var": acc_key[1], "name": "acc"}, "rhs": {"k": "Lit", "kind": "int", "v": "0", "neg": False}}}
         res = []
         for s, kind, v in self._for_core(e, st, it, None, None, body, label, bind_var=elem_key, elem_ty=elem_ty):
